@@ -568,7 +568,8 @@ the command model's domain). -/
 def BlockFails (st : ConnState) (db : DB) (now : Int) (req : List Bytes) : Prop :=
   st.inMulti = true ∧ classify req = some .exec ∧ blockClass now st.cmds db = .fails
 
-/-- outside the wire model's domain: the request itself (parser panic D11, unknown grammar), or an
+/-- outside the wire model's domain: the request itself (non-ASCII name, number outside the parser
+model, empty request, unknown grammar — never a panic since the repair of D11), or an
 EXEC whose block meets a command outside the command model's numeric domain before any failure -/
 def OutOfDomain (st : ConnState) (db : DB) (now : Int) (req : List Bytes) : Prop :=
   classify req = none ∨ (st.inMulti = true ∧ classify req = some .exec ∧ blockClass now st.cmds db = .ood)
